@@ -17,19 +17,25 @@ from mc.common import FAMILIES, grid_rects, xinter, xarea, xinside, center_shape
 ID = 'C01'
 LEVEL = 'exploration'
 RULE = ("die of WxH grid cells; region alphabet = all index rectangles inside the die + rectangles crossing or lying beyond the east/north border; "
-        "all sets of <=3 regions x kind vectors over {blockage '#', specialised 'dsp'/'bram', fixed (through a netlist)}; families INT, HALF, DEC1, DEC3, DEC7 and a near-miss family with 1e-6 steps (tiny overlaps / gaps / overhangs) "
+        "all sets of <=3 regions x kind vectors over {blockage '#', specialised 'dsp'/'bram', fixed (through a netlist)}; families INT, HALF, DEC1, DEC3, DEC7, large dies (1e5, 1e6, 1e7 units with 0.1-step coordinates) and a near-miss family with 1e-6 steps (tiny overlaps / gaps / overhangs) "
         "(decimal steps not representable in binary). Non-trivial = valid descriptions with >=1 region (the tiling oracle runs) plus invalid ones that "
         "overlap or leave the die by one grid step (the rejection oracle runs); empty dies are trivial. Distinct by construction.")
 ASSUMPTIONS = ["'valid' is decided on the intended decimal coordinates (exact rationals); every invalid description is invalid by at least one grid step",
                "reported coordinates are compared with 1e-9*scale tolerance (exact equality for the pass-through of input regions)",
-               "die sizes 2..4 grid steps, <=3 regions (4 on the smallest die in thorough)"]
-BOUNDS = {'quick': 'die 3x3 cells (HALF, DEC1) and 3x2 cells (INT, DEC3, DEC7); near-miss die 4x4 points with <=2 regions; all sets of <=3 regions; 5 kind vectors for triples, all for singles/pairs',
+               "die sizes 2..4 grid steps, <=3 regions (4 on the smallest die in thorough)",
+               "the modules of an attached netlist are of the scale of the die (the netlist derives the process-wide tolerance from its smallest module: see C20)"]
+BOUNDS = {'quick': 'die 3x3 cells (HALF, DEC1) and 3x2 cells (INT, DEC3, DEC7); near-miss die 4x4 points with <=2 regions; large dies 3x3 / 3x2 cells with <=2 regions; all sets of <=3 regions; 5 kind vectors for triples, all for singles/pairs',
           'thorough': 'all 27 kind vectors for triples; 3x3 and 3x2 for all five families; die 4x4 (HALF, DEC1) with <=3 regions, reduced kinds; 2x2 with <=4 regions'}
 
 # near-miss family: a 1e-6 step next to 1 -> overlaps / gaps / overhangs of 1e-6 (far above the die's own
 # tolerance of 1e-11*size, far below a grid step): tiny overlaps must still be rejected, tiny gaps tiled
 _NEAR6 = [F(0), F(1), F(1000001, 1000000), F(2), F(3), F(3000001, 1000000)]
-FAMILIES = dict(FAMILIES, NEAR6=lambda i: _NEAR6[i])
+# large dies (1e5 .. 1e7 units, ordinary in database units) with 0.1-step coordinates: one ulp of the die area exceeds
+# a tolerance that is proportional to a length
+_BIG5 = [F(0), F(200001, 10), F(200005, 10), F(100000), F(1200003, 10)]
+_BIG6 = [F(0), F(2000001, 10), F(2000003, 10), F(1000000), F(12000003, 10)]
+_BIG7 = [F(0), F(30000001, 10), F(30000007, 10), F(100000004, 10), F(120000003, 10)]
+FAMILIES = dict(FAMILIES, NEAR6=lambda i: _NEAR6[i], BIG5=lambda i: _BIG5[i], BIG6=lambda i: _BIG6[i], BIG7=lambda i: _BIG7[i])
 
 KINDS = ['#', 'dsp', 'fixed']
 TRIPLE_KINDS_QUICK = [('#', '#', '#'), ('dsp', '#', 'fixed'), ('fixed', 'dsp', '#'), ('fixed', 'fixed', 'dsp'),
@@ -78,7 +84,11 @@ def shards(tier):
         for fam in ('INT', 'DEC3', 'DEC7'):
             add(fam, 3, 2, 3, 'quick')
         add('NEAR6', 4, 4, 2, 'quick')
+        add('BIG5', 3, 3, 2, 'quick')
+        add('BIG6', 3, 2, 2, 'quick')
     else:
+        for fam in ('BIG5', 'BIG6', 'BIG7'):
+            add(fam, 3, 3, 3, 'quick')
         add('NEAR6', 4, 4, 3, 'quick')
         for fam in ('INT', 'HALF', 'DEC1', 'DEC3', 'DEC7'):
             add(fam, 3, 3, 3, 'thorough')
@@ -141,7 +151,8 @@ def check_case(case, res):
         else:
             for i, e in enumerate(fixed):
                 mods[f'F{i + 1}'] = {'fixed': True, 'rectangles': [vec(e)]}
-        mods['S'] = {'area': 1}
+        # a soft companion module of the scale of the design (the netlist derives the tolerance from its smallest module)
+        mods['S'] = {'area': 1 if not fam.startswith('BIG') else float(f(1)) ** 2}
         try:
             netlist = Netlist({'Modules': mods, 'Nets': []})
         except Exception as e:  # noqa
